@@ -45,7 +45,7 @@ LEVEL_TEXT = ("Random single insertions and histories of 1-4 insertions of all f
               "model (count, order, survivors bit-identical, old_id composed to the first system, defect atoms last with requested "
               "position/type/values, cell/pbc/symbols, input untouched and unaliased), plus every documented refusal.")
 TECHNIQUE = "model-based histories; independent exact site look-up (unique-image argument); refusal families; aliasing probes"
-WALL = {'quick': 70, 'thorough': 600}
+WALL = {'quick': 60, 'thorough': 600}
 
 KEY_DB = 'C15:dumbbell:db_vect-scaled-origin'
 KEY_INT = 'C15:pos:integer-typed'
